@@ -97,7 +97,7 @@ claim("C16",
       "characters (strconv.Quote) and inputs longer than the bound are outside. " + TRUSTED, "4 C16")
 claim("C17",
       "Only the post-decode half of the statement: the real validators (Config, Route, Receiver, time-interval UnmarshalYAML bodies and Load's root checks) run on decoded configurations of bounded shape (valid ones and every "
-      "defect the validators are meant to catch, on root, child and grandchild): accepted => well formed; the coordinator keeps the configuration and does not reach its subscribers when loading fails; the three secret types marshal to <secret>.",
+      "defect the validators are meant to catch, on root, child and grandchild): accepted => well formed; the coordinator keeps the configuration and does not reach its subscribers when loading fails; the three secret types marshal to <secret>; the validator never panics over all value/file combinations of the global credential settings and accepts none given twice.",
       "NOT claimed (cannot be encoded): totality of the YAML decoder on arbitrary bytes (yaml.v2 is reflection-driven parser code), that every secret-bearing field of the 18 integrations has a secret type, the per-integration validation, "
       "the print->load round trip, and the fallible-work-first ordering of app.reloader. Bounds: <=3 route nodes, 18 node shapes, 5 receiver lists, 6 interval lists. The coordinator harness replaces LoadFile by a symbolic outcome (engine only). " + TRUSTED, "4 C17")
 claim("C18",
